@@ -1452,7 +1452,10 @@ package otr3
 //@   ensures [C17.export.protocol] wout(w) == scat(scat(scat(scat(old(wout(w)), "    "), "(protocol "), n), ")\n")
 
 // DSA signatures on the wire: r and s in two 160-bit fields (C10); keys whose q is larger cannot be used (C13).
+//@ ghoststate sigLayout Bool
 //@ func (*DSAPrivateKey).Sign
 //@   requires priv != nil
+//@   ghostlocal sigLayout(nil) = result1 != nil || (len(rBytes) <= 20 && len(sBytes) <= 20 && (forall i in 0..len(rBytes) :: out[20 - len(rBytes) + i] == rBytes[i]) && (forall i in 0..20-len(rBytes) :: out[i] == 0) && (forall i in 0..len(sBytes) :: out[40 - len(sBytes) + i] == sBytes[i]) && (forall i in 20..40-len(sBytes) :: out[i] == 0))
+//@   ensures [C10.sig.layout,C17.sig.layout] sigLayout(nil)
 //@   ensures [C10.sig.len] result1 == nil ==> (len(result0) == 40 && fresh(result0))
 //@   ensures [C13.sig.err] result1 != nil ==> result0 === nil
